@@ -20,8 +20,10 @@ RULE = ('trees = nests of dict / Dict / dictattr over string keys with leaves No
         'non-trivial = update with a common key, flat tree of depth >= 2, table with >= 2 rows; distinct by the JSON of the case')
 EXPLANATION = ('theorems C15_* (coq/props/C15.v) hold for every tree of the inductive type (any depth and branching): flatten-then-insert '
                '(what tree_update does) equals the recursive merge, rebuild is the identity, idempotence, empty update, and no assignment '
-               'of the repaired tree_update goes into a dict object owned by an operand (ownership-flag formulation of the heap frame); the pinned '
-               'shallow-copy variant is refuted inside Coq on the DESIGN input. The correspondence ties the model to /repo on thousands of trees')
+               'of the repaired tree_update / table_to_tree goes into a dict object owned by an operand (ownership-flag formulation of the heap frame); '
+               'for ANY list of rows with pairwise distinct paths under a pattern with distinct wildcard names, tree_to_table(table_to_tree(None, pattern, rows)) '
+               'is a permutation of the rows restricted to the pattern columns (C15_table_tree_inverse) and rebuilding from that table gives the same tree '
+               '(C15_tree_table_tree_inverse); the pinned shallow-copy variant is refuted inside Coq on the DESIGN input. The correspondence ties the model to /repo on thousands of trees')
 TRUSTED = ['modelled, not verified: Python dict insertion order / in-place assignment (association lists, M_tree.kset), copy() of a dict (a new object sharing the values), '
            'the harness builder that turns the JSON description into Python objects and Coq literals']
 ASSUMPTIONS = ['keys are ASCII strings without dots', 'branches are exactly dict, Dict or dictattr objects; leaves are None, ints, strings or lists of those',
@@ -359,10 +361,10 @@ def gen_cases(rng, tier):
     return cases
 
 LEVEL_TEXT = ('machine-checked Coq theorems (C15_*, by structural induction over every tree: any depth, any branching) that flatten-then-insert equals the '
-              'recursive merge, that rebuild inverts flatten on trees with non-empty branches, idempotence, empty update, and that the repaired tree_update never '
-              'assigns into a dict object owned by an operand; the model is tied to /repo on every run by evaluating the real functions on every pair of small '
+              'recursive merge, that rebuild inverts flatten on trees with non-empty branches, idempotence, empty update, that the repaired tree_update / table_to_tree never '
+              'assign into a dict object owned by an operand, and that table_to_tree / tree_to_table are inverse (up to row order, in both directions) for any number of rows with '
+              'unique paths and any pattern with distinct wildcard names; the model is tied to /repo on every run by evaluating the real functions on every pair of small '
               'trees and thousands of random trees, updates and pattern tables and comparing with the model inside Coq, with deep before/after snapshots of both operands')
 LEVEL_NOTE = ('trusted: Coq kernel/vm_compute; modelled not verified: dict insertion order, in-place assignment and copy() (ownership-flag formulation of the heap); '
-              'the pinned shallow copy in items_to_tree / table_to_tree writes into the left operand (fixes/C15.patch); table/tree inverse is proved for the '
-              'pattern instantiation of a single row only (C15_table_tree_inverse_partial) and otherwise covered by the correspondence')
+              'the pinned shallow copy in items_to_tree / table_to_tree wrote into the left operand (repaired by fixes/C15.patch); wildcard values in key positions are strings in the model')
 TECHNIQUE = 'Coq proof (nested structural induction, refinement of path insertion to a recursive merge spec, ownership flags for aliasing) + differential correspondence in vm_compute'
